@@ -210,3 +210,29 @@ func VH_C19_object_tree() {
 	}
 	vhC19UseAll("C19.obj.nopanic", Open(root), o.UUID())
 }
+
+// VH_C19_cast_swap: schema.json stays well-formed but the declared cast of a
+// field index is exchanged for another *valid* cast name (the values keep
+// their JSON type), or the values are exchanged for another JSON type under
+// the declared cast: every public call returns, none panics, and a search on
+// that field does not hand out objects while reporting no error... unless the
+// load refused the schema in the first place.
+func VH_C19_cast_swap() {
+	db, root := vhOpenDB(vhCfgs[0])
+	o := &vObj{A: 3, S: "s", U: 1}
+	vAssert("C19.cast.pre", db.InsertOrUpdate(o) == nil && db.InsertOrUpdate(&vObj{A: 4, S: "t"}) == nil)
+	vAssert("C19.cast.close", db.Close() == nil)
+	sch := root + "/sod.vObj/schema.json"
+	field := []string{"A", "S"}[vChoice("field", 2)]
+	casts := []string{"int64", "uint64", "float64", "string", "bool"}
+	switch vChoice("how", 2) {
+	case 0:
+		c := casts[vChoice("cast", len(casts))]
+		vAssert("C19.cast.edit", vJSONSet(sch, "index/fields/"+field+"/cast", "\""+c+"\""))
+	case 1:
+		vals := []string{"\"zz\"", "7", "-1.5", "true", "18446744073709551615"}
+		v := vals[vChoice("val", len(vals))]
+		vAssert("C19.cast.edit", vJSONSet(sch, "index/fields/"+field+"/index/0/0", v))
+	}
+	vhC19UseAll("C19.cast.nopanic", Open(root), o.UUID())
+}
